@@ -203,6 +203,17 @@ def run(res: Results, idx: Index, tier: str) -> None:
             res.add("R-C16d", inst.status, inst.site, f"R-C03f::{inst.key}", f"[C03 R-C03f] {inst.detail}", inst.func)
     res.analysed["cross_referenced_rejections"] = n_x
     rule_e(res, idx)
+    if not getattr(res, "_nested_xref", False):
+        # under the default (non-strict) policy a pass that raises leaves the graph as the EARLIER passes left it: every pass
+        # must hand over a well-formed graph on its own, it may not rely on a later pass to repair node order (C02 R-C02p)
+        from . import c02
+        res.rule("R-C16f", "each optimizer pass leaves a topologically sorted graph behind: inserted nodes are anchored before their readers (C02 R-C02p)", floor=3)
+        sub2 = Results("C02", tier)
+        setattr(sub2, "_nested_xref", True)
+        c02.rule_p(sub2, idx, idx.module(c02.OPT))
+        for inst in sub2.instances:
+            if inst.rule == "R-C02p":
+                res.add("R-C16f", inst.status, inst.site, f"R-C02p::{inst.key}", f"[C02 R-C02p] {inst.detail}", inst.func)
     if n_x < 4:
         raise AnalysisError(f"only {n_x} rejection instances cross-referenced from C06 R-C06b / C04 R-C04b (expected >= 4)")
 
